@@ -87,7 +87,7 @@ class Unit:
                     if isinstance(sub, ast.ImportFrom) and not sub.level:
                         for a in sub.names:
                             self.imports.setdefault(a.asname or a.name, (sub.module, a.name))
-                    elif isinstance(sub, ast.FunctionDef):
+                    elif isinstance(sub, ast.FunctionDef) and sub.name not in self.imports:
                         self.functions.setdefault(sub.name, sub)
 
     def func(self, qualname):
